@@ -1,5 +1,5 @@
 SPECIFICATION Spec
 CONSTANTS MaxRows1 = 2
  MaxRows2 = 1
- Snapshot = TRUE
+ Snapshot = FALSE
 INVARIANT Refines
